@@ -93,7 +93,65 @@ def snapshot_globals():
         'showwarning': 'id%d' % id(warnings.showwarning),
         'stdout': 'id%d' % id(sys.stdout),
         'stderr': 'id%d' % id(sys.stderr),
+        # the debug flags once more, as the names of the bits that are set
+        # (environment fact: the gc module's own constants)
+        'gcDebugBits': gc_debug_bits(),
     }
+
+
+GC_BITS = ('DEBUG_STATS', 'DEBUG_COLLECTABLE', 'DEBUG_UNCOLLECTABLE',
+           'DEBUG_SAVEALL')
+
+
+def gc_debug_bits(value=None):
+    """C18: gc.get_debug() as the sorted names of the flags that are set
+    (a lookup in the gc module's constants; bits without a name show up
+    as 'bit<n>')."""
+    import gc
+    v = gc.get_debug() if value is None else value
+    out = []
+    for name in GC_BITS:
+        bit = getattr(gc, name)
+        if v & bit:
+            out.append(name)
+            v &= ~bit
+    n = 0
+    while v:
+        if v & 1:
+            out.append('bit%d' % n)
+        v >>= 1
+        n += 1
+    return sorted(out)
+
+
+class CycleNode:
+    """C18 (--gc-after-test): an object that refers to itself, i.e. cyclic
+    garbage once the test is over.  Whoever prints it gets the collector's
+    debug flags of that moment logged (event GcRepr; `inwin`: it is printed
+    by runner.repr_lines, i.e. by the cycle analysis of TestResult.stopTest
+    under -vvvv --gc-after-test).  how: 'ok' | 'error' (repr raises an
+    ordinary exception) | 'kbint' (the user hits Ctrl-C while the garbage is
+    being printed)."""
+
+    def __init__(self, log, tid, how):
+        self.log, self.tid, self.how = log, tid, how
+        self.me = self
+
+    def __repr__(self):
+        import gc
+        names = set()
+        f = sys._getframe(1)
+        while f is not None:
+            names.add(f.f_code.co_name)
+            f = f.f_back
+        self.log.emit('GcRepr', t=self.tid, debug=gc.get_debug(),
+                      bits=gc_debug_bits(), inwin='repr_lines' in names,
+                      how=self.how)
+        if self.how == 'error':
+            raise ValueError('scripted repr error ' + self.tid)
+        if self.how == 'kbint':
+            raise KeyboardInterrupt()
+        return '<CycleNode %s>' % self.tid
 
 
 # ---------------------------------------------------------------- exceptions
@@ -216,17 +274,24 @@ def crash(how):
 # ---------------------------------------------------------------- threads
 
 class ThreadBook:
-    """Threads started by scripted tests, keyed by the world's thread name."""
+    """Threads started by scripted tests (or, ``test == ''``, while the world
+    is being built: "at import time"), keyed by the world's thread name.
+
+    Every thread blocks on its own command queue until it is told what to do
+    to itself - become known to ``threading`` (``adopt``), take another name
+    (``rename``) or end (``None``) - and acknowledges each command through an
+    Event: no sleeps as synchronisation."""
 
     def __init__(self, log):
         self.log = log
-        self.events = {}
+        self.events = {}      # key -> queue of commands for the thread
         self.idents = {}
         self.threads = {}
         self.started = {}
 
     def start(self, test, key, api, tname):
-        ev = self.events[key] = threading.Event()
+        import queue
+        q = self.events[key] = queue.Queue()
         started = self.started[key] = threading.Event()
 
         names = {}
@@ -238,7 +303,23 @@ class ThreadBook:
                 # _DummyThread for it that stays "alive" after it has ended
                 names[key] = threading.current_thread().name
             started.set()
-            ev.wait()
+            while True:
+                cmd = q.get()
+                if cmd is None:
+                    return
+                kind, arg, res, done = cmd
+                try:
+                    if kind == 'adopt':
+                        # what logging, a library callback ... do: ask
+                        # threading who is running; a thread threading has
+                        # never seen is registered as "Dummy-N" on the spot
+                        res['name'] = threading.current_thread().name
+                    elif kind == 'rename':
+                        threading.current_thread().name = arg
+                        res['name'] = threading.current_thread().name
+                except BaseException as e:  # noqa -- reported by the caller
+                    res['error'] = repr(e)
+                done.set()
 
         if api in ('_thread', '_thread_ct'):
             _thread.start_new_thread(body, ())
@@ -260,11 +341,47 @@ class ThreadBook:
         self.log.emit('ThreadStart', t=test, thread=key,
                       ident=self.idents.get(key, 0), api=api, name=name)
 
-    def release(self, test, key):
-        ev = self.events.get(key)
-        if ev is None:
+    def _tell(self, key, kind, arg=None):
+        """hand a command to the (blocked) thread and wait until it is done"""
+        q = self.events.get(key)
+        if q is None:
+            return None
+        res = {}
+        done = threading.Event()
+        q.put((kind, arg, res, done))
+        if not done.wait(30):
+            res['error'] = 'no answer from thread %s' % key
+        return res
+
+    def adopt(self, test, key):
+        """a running low-level thread calls threading.current_thread()"""
+        res = self._tell(key, 'adopt')
+        if res is None:
             return
-        ev.set()
+        self.log.emit('ThreadName', t=test, thread=key, how='adopt',
+                      ident=self.idents.get(key, 0),
+                      name=res.get('name', ''), error=res.get('error', ''))
+
+    def rename(self, test, key, tname, by='self'):
+        """a running thread known to threading gets another name: assigned
+        by the test to the Thread object it holds, or by the thread itself"""
+        t = self.threads.get(key)
+        if by == 'test' and t is not None:
+            t.name = tname
+            res = {'name': t.name}
+        else:
+            res = self._tell(key, 'rename', tname)
+            if res is None:
+                return
+        self.log.emit('ThreadName', t=test, thread=key, how='rename',
+                      ident=self.idents.get(key, 0),
+                      name=res.get('name', ''), error=res.get('error', ''))
+
+    def release(self, test, key):
+        q = self.events.get(key)
+        if q is None:
+            return
+        q.put(None)
         ident = self.idents.get(key)
         t = self.threads.get(key)
         if t is not None:
@@ -278,7 +395,18 @@ class ThreadBook:
 
     def release_all(self):
         for key in list(self.events):
-            self.events[key].set()
+            self.events[key].put(None)
+
+    def forget_ended(self):
+        """hygiene between the jobs of one worker process: CPython <= 3.12
+        keeps the object threading made up for an adopted low-level thread
+        for ever, and a thread of the next job that is handed the same ident
+        would be born under that old name"""
+        running = set(sys._current_frames())
+        with threading._active_limbo_lock:
+            for ident, t in list(threading._active.items()):
+                if ident not in running and ident in self.idents.values():
+                    del threading._active[ident]
 
 
 # ---------------------------------------------------------------- the world
@@ -302,6 +430,12 @@ class World:
         self._build_classes()
         self.suite = self._build_suite(spec.get('suite'))
         self.ns['test_suite'] = lambda: self.suite
+        # C19: threads that exist before the first test - started while the
+        # world (the test module) is being built, i.e. at import time
+        if not spec.get('ref_mode'):
+            for a in spec.get('pre_threads', ()):
+                self.threads.start('', a['name'], a.get('api', 'threading'),
+                                   a.get('tname'))
 
     # -- layers
 
@@ -537,7 +671,8 @@ class World:
                               dc=a.get('stream', 'stdout') in self.tampered)
                 continue
             if self.spec.get('ref_mode') and kind in (
-                    'tstart', 'trelease', 'crash', 'signal', 'wait', 'sleep',
+                    'tstart', 'trelease', 'tadopt', 'trename', 'crash', 'signal',
+                    'wait', 'sleep',
                     'snap', 'fiddle', 'kbint'):
                 continue
             if kind == 'ok':
@@ -565,6 +700,14 @@ class World:
                     warnings.showwarning = lambda *a_, **k_: None
                 else:
                     warnings.simplefilter('ignore', ResourceWarning)
+            elif kind == 'cycle':
+                # the test leaves cyclic garbage behind (C18, --gc-after-test)
+                # (kept alive by the test instance, whose __dict__ the runner
+                # clears in stopTest: garbage from then on, not earlier)
+                if not self.spec.get('ref_mode'):
+                    node = CycleNode(self.log, tid, a.get('repr', 'ok'))
+                    setattr(test, '_verif_cycle_%d' % id(node), node)
+                    self.log.emit('Cycle', t=tid, how=a.get('repr', 'ok'))
             elif kind == 'redirect':
                 # the test replaces a std stream with an object of its own
                 x = a.get('stream', 'stdout')
@@ -595,6 +738,11 @@ class World:
                                    a.get('tname'))
             elif kind == 'trelease':
                 self.threads.release(tid, a['name'])
+            elif kind == 'tadopt':
+                self.threads.adopt(tid, a['name'])
+            elif kind == 'trename':
+                self.threads.rename(tid, a['name'], a['tname'],
+                                    a.get('by', 'self'))
             elif kind == 'crash':
                 self.log.emit('Crash', how=a['how'], t=tid)
                 crash(a['how'])
